@@ -37,7 +37,8 @@ theorem new_eq_model (fuel : Nat) (M v : Int) (hM : 0 ≤ M) (hM2 : M < 2 ^ 32) 
   simp only [hw, h1, and_false, if_false, wrap_i32, wrap_u32, i32]
   close_except
 
-theorem md_eq (fuel : Nat) (M : Int) : MintSrc.md fuel M = .ok M := rfl
+/-- Unfolds the accessor `md()` if the source still has (and uses) one: nothing here depends on its existence. -/
+macro "unfold_md" : tactic => `(tactic| try (simp only [MintSrc.md]))
 
 /-- `Add::add` — for all integers. -/
 theorem add_eq_model (fuel : Nat) (M a b : Int) : MintSrc.add fuel M a b = Mint.add M a b := by
@@ -48,13 +49,15 @@ theorem add_eq_model (fuel : Nat) (M a b : Int) : MintSrc.add fuel M a b = Mint.
 /-- `Sub::sub` — for all integers. -/
 theorem sub_eq_model (fuel : Nat) (M a b : Int) : MintSrc.sub fuel M a b = Mint.sub M a b := by
   unfold MintSrc.sub Mint.sub
-  simp only [md_eq, u32]
+  simp only [u32]
+  unfold_md
   close_except
 
 /-- `Neg::neg` — for all integers. -/
 theorem neg_eq_model (fuel : Nat) (M a : Int) : MintSrc.neg fuel M a = Mint.neg M a := by
   unfold MintSrc.neg Mint.neg
-  simp only [md_eq, u32]
+  simp only [u32]
+  unfold_md
   close_except
 
 /-- `Mul::mul` — for every `u32` modulus and operands that fit `i64` (in particular all `u32` field values): the
@@ -162,17 +165,15 @@ theorem inv_loop0_eq : ∀ (fuel : Nat) (M a b x y : Int), a.natAbs + 1 ≤ fuel
       rw [dif_neg ha]
       unfold MintSrc.inv_loop0
       simp only [ne_eq, ha, not_false_eq_true, if_true, if_false, checked, i32]
-      by_cases h1 : (IntTy.mk true 32).fits (b.tdiv a) = true <;> simp only [h1, not_true, not_false_eq_true, if_true, if_false]
-      · by_cases h2 : (IntTy.mk true 32).fits (b.tdiv a * a) = true <;> simp only [h2, not_true, not_false_eq_true, if_true, if_false]
-        · by_cases h3 : (IntTy.mk true 32).fits (b - b.tdiv a * a) = true <;> simp only [h3, not_true, not_false_eq_true, if_true, if_false]
-          · by_cases h4 : (IntTy.mk true 32).fits (b.tdiv a * y) = true <;> simp only [h4, not_true, not_false_eq_true, if_true, if_false]
-            · by_cases h5 : (IntTy.mk true 32).fits (x - b.tdiv a * y) = true <;> simp only [h5, not_true, not_false_eq_true, if_true, if_false]
-              · exact hrec
-              · rfl
-            · rfl
-          · rfl
-        · rfl
-      · rfl
+      -- all five `i32` checks up front: whatever order the source performs them in, the first one that fails yields the same
+      -- `overflow`, and if none fails both sides continue with the same state
+      by_cases h1 : (IntTy.mk true 32).fits (b.tdiv a) = true <;>
+      by_cases h2 : (IntTy.mk true 32).fits (b.tdiv a * a) = true <;>
+      by_cases h3 : (IntTy.mk true 32).fits (b - b.tdiv a * a) = true <;>
+      by_cases h4 : (IntTy.mk true 32).fits (b.tdiv a * y) = true <;>
+      by_cases h5 : (IntTy.mk true 32).fits (x - b.tdiv a * y) = true <;>
+      simp only [h1, h2, h3, h4, h5, not_true, not_false_eq_true, if_true, if_false, Except.map] <;>
+      first | rfl | exact hrec
 
 /-- `inv` — guard of C06, canonical operand, budget `a + 1`. -/
 theorem inv_eq_model (fuel : Nat) (M a : Int) (hM : 2 ≤ M) (hM2 : M < 2 ^ 31) (ha : R M a) (hf : a.natAbs + 1 ≤ fuel) :
